@@ -364,6 +364,10 @@ func genCtl(r *rand.Rand, b baseSet, zero bool) (*ctlJ, string) {
 		if k.K == "none" && r.Intn(2) != 0 && v != "REQUEST_METHOD" {
 			k = genNeg(r, v).Key
 		}
+		if v == "REQUEST_HEADERS" && r.Intn(12) == 0 {
+			// F61: an upper-case letter in a ctl regex key over a case-insensitive collection
+			k = keyJ{K: "rx", V: pick(r, []string{"^X-H", "H1$", "X-K"})}
+		}
 		c.Var, c.Key = v, &k
 	}
 	switch r.Intn(8) {
